@@ -5,7 +5,9 @@
 EXTENDS Polygon
 
 \* vertices and equatorial edges used by the tentative queries (fixed order, shared with the driver)
-TestVerts == << <<"N", 30>>, <<"S", -45>>, <<"E", 0>>, <<"E", 180>>, <<"E", -91>>, <<"E", 200>> >>
+\* (the last one is a pole whose nominal longitude is a positive multiple of 360: from a vertex at longitude +180 the
+\*  longitude difference is then +180 with the target congruent to 0 - the "180 -> 360" case of the crossing count)
+TestVerts == << <<"N", 30>>, <<"S", -45>>, <<"E", 0>>, <<"E", 180>>, <<"E", -91>>, <<"E", 200>>, <<"S", 720>> >>
 TestEdges == << <<1, 90>>, <<-1, 181>>, <<1, 359>> >>
 Flags == << <<FALSE, FALSE>>, <<FALSE, TRUE>>, <<TRUE, FALSE>>, <<TRUE, TRUE>> >>
 TestFlags == << <<FALSE, FALSE>>, <<TRUE, TRUE>> >>
@@ -15,6 +17,10 @@ AddPointS(verts, hows, p) == <<Append(verts, p), Append(hows, <<"pt">>)>>
 AddEdgeOK(verts) == verts # <<>> /\ verts[Len(verts)][1] = "E"
 AddEdgeS(verts, hows, dir, s) ==
   LET p == verts[Len(verts)] IN <<Append(verts, <<"E", p[2] + dir * s>>), Append(hows, <<"ed", dir, s>>)>>
+
+(* (Finding C08-F1 of the strengthening round - a shortest-line leg from a longitude written 360, 720, ... to one congruent   *)
+(* to 180 gave an area off by half the ellipsoid - was repaired in /repo by 3e749e6; the guard that suspended the area           *)
+(* obligation for those histories has been removed, so the repaired behaviour is now demanded.)                                  *)
 
 \* expected result of Compute: <<num, perimeter, set of admissible areas or {} when not determined>>
 ComputeExp(verts, hows, polyline, reverse, sign) ==
